@@ -16,6 +16,7 @@ from c07_lib import *
 
 KEY_AUTOSAVE = 'F-C07-autosave-writers-not-drained'
 KEY_TRUNC = 'F-C07-parity-truncated-before-content-save'
+KEY_PREHASH = 'F-C07-prehash-loses-empty-marker'
 LOAD_FAIL = re.compile(r'content file.*(damaged|truncated)|Error reading the content|Unexpected end of content|No content file|Error decoding', re.I)
 WRITE_CALLS = ('write', 'pwrite')
 
@@ -59,15 +60,16 @@ def loads_ok(r):
 class SyncKill:
     """one configuration: scenario, np, io_cache, number of content copies, autosave position"""
 
-    def __init__(self, chk, scn, cache, autosave_at=0, model=None, full_c01=False):
+    def __init__(self, chk, scn, cache, autosave_at=0, model=None, full_c01=False, extra=()):
         self.chk, self.scn, self.cache, self.autosave_at, self.model, self.full_c01 = chk, scn, cache, autosave_at, model, full_c01
         self.force = ['--force-empty'] if scn.name == 'wipe' else []       # every file of a disk removed: sync refuses without -E
-        self.opts = ['--test-io-cache', str(cache)] + (['--test-force-autosave-at', str(autosave_at)] if autosave_at else []) + self.force
+        self.opts = ['--test-io-cache', str(cache)] + (['--test-force-autosave-at', str(autosave_at)] if autosave_at else []) + self.force + list(extra)
+        self.extra = list(extra)
         self.adds_only = scn.name in ('adds', 'adds3', 'fresh')
         self.synced_before = [(op[1], op[2]) for ph in scn.pre for op in ph if op[0] == 'write'] if self.adds_only else []
         self.stats = {'kills': 0, 'content_loads': 0, 'kill_inv_stripes': 0, 'resumed': 0, 'c01_recoveries': 0, 'adds_recoveries': 0,
                       'torn_write_np1_unrecoverable': 0, 'torn_total': 0, 'autosave_race_hits': 0}
-        self.desc = dict(scn.describe(), io_cache=cache, autosave_at=autosave_at)
+        self.desc = dict(scn.describe(), io_cache=cache, autosave_at=autosave_at, options=list(extra))
         self.reference()
 
     def reference(self):
@@ -180,7 +182,9 @@ class SyncKill:
                         if torn and a.np == 1:
                             self.stats['torn_write_np1_unrecoverable'] += 1     # Q-C07: measured, not a violation
                         else:
-                            chk.violation('adds_only', 'sync (additions only) killed at call %d (%s): after losing %s, fix does not restore the previously synced %s' % (k, mode, dev, bad[:2]), rep)
+                            # with -h the additions are REP blocks (hash of the new data) instead of CHG/ZERO: the open finding
+                            chk.violation('adds_only', 'sync %s(additions only) killed at call %d (%s): after losing %s, fix does not restore the previously synced %s' % (
+                                ' '.join(self.extra) + ' ' if self.extra else '', k, mode, dev, bad[:2]), rep, finding_key=KEY_PREHASH if ('-h' in self.extra and dev[0] == 'd' and not torn and a.np == 1) else None)
             # 5. the next sync completes and re-establishes the guarantee
             rs = a.run('sync', *self.force)
             if rs.rc != 0:
@@ -356,7 +360,7 @@ class SyncKill:
 
 
 # -------------------------------------------------------------------------------------------------- graceful stop
-def signal_case(chk, scn, slow, cache, k, sig, model, stats):
+def signal_case(chk, scn, slow, cache, k, sig, model, stats, extra=()):
     a = scn.build()
     rep = dict(scn.describe(), io_cache=cache, signal=int(sig), at_write=k)
     try:
@@ -365,7 +369,7 @@ def signal_case(chk, scn, slow, cache, k, sig, model, stats):
         env = dict(os.environ)
         env.update({'LD_PRELOAD': slow, 'C07_SLOW_MS': '30', 'C07_SLOW_PROGRESS': prog, 'C07_SLOW_SUBSTR': 'par0_'})
         force = ['--force-empty'] if scn.name == 'wipe' else []
-        args = [a.bin] + BASE_OPTS + ['-c', a.conf, '-l', os.path.join(a.root, 'sig.log'), 'sync', '--test-io-cache', str(cache)] + force
+        args = [a.bin] + BASE_OPTS + ['-c', a.conf, '-l', os.path.join(a.root, 'sig.log'), 'sync', '--test-io-cache', str(cache)] + force + list(extra)
         p = subprocess.Popen(args, stdout=subprocess.PIPE, stderr=subprocess.PIPE, env=env, cwd=a.root)
         t0 = time.time()
         while p.poll() is None and time.time() - t0 < 30:
@@ -440,8 +444,8 @@ def signal_case(chk, scn, slow, cache, k, sig, model, stats):
 
 # -------------------------------------------------------------------------------------------------- fix killed and re-run
 class FixKill:
-    def __init__(self, chk, binary, shim, np_=2):
-        self.chk, self.binary, self.shim, self.np = chk, binary, shim, np_
+    def __init__(self, chk, binary, shim, np_=2, slow=None):
+        self.chk, self.binary, self.shim, self.np, self.slow = chk, binary, shim, np_, slow
         self.stats = {'kills': 0, 'same_result': 0, 'mtime_only_diffs': 0}
         a = self.build()
         self.good = a.snapshot_data()
@@ -478,6 +482,12 @@ class FixKill:
     def damage(self, a):
         shutil.rmtree(os.path.join(a.root, 'd1'))
         os.makedirs(os.path.join(a.root, 'd1'))
+        # a file of another disk that grew since the sync (same time stamp): fix cuts it back to the recorded size (handle_truncate)
+        p = a.path('d3', 'z')
+        st = os.stat(p)
+        with open(p, 'ab') as f:
+            f.write(b'\x77' * 700)
+        os.utime(p, ns=(st.st_mtime_ns, st.st_mtime_ns))
         if self.np < 2:
             return          # one parity level: the lost disk alone uses up the redundancy
         # a damaged block in the middle of d2/x, same size and mtime (silent error)
@@ -496,6 +506,56 @@ class FixKill:
             if call in WRITE_CALLS:
                 pts.append((n, 'short'))
         return pts
+
+    def graceful_case(self, how):
+        """the fix is stopped gracefully -- a partial run (`-B n`, `-S s -B n`) or a signal at one of its data writes -- : files it
+        created and did not finish are removed (check.c), nothing else may be lost; an uninterrupted fix then ends as the
+        reference.  how = ('B', s, n) | ('sig', k, signal)"""
+        chk = self.chk
+        if len(chk.violations) > 8:
+            return
+        a = self.build()
+        rep = {'fix_graceful': list(map(str, how)), 'np': self.np}
+        try:
+            self.damage(a)
+            before = {k for k, v in a.snapshot_data().items() if v[0] == 'f'}
+            if how[0] == 'B':
+                opts = (['-S', str(how[1])] if how[1] else []) + ['-B', str(how[2])]
+                a.run('fix', *opts)
+                what = '`fix %s`' % ' '.join(opts)
+            else:
+                prog = os.path.join(a.root, 'progress')
+                env = dict(os.environ)
+                env.update({'LD_PRELOAD': self.slow, 'C07_SLOW_MS': '25', 'C07_SLOW_PROGRESS': prog, 'C07_SLOW_SUBSTR': os.path.join(a.root, 'd')})
+                p = subprocess.Popen([a.bin] + BASE_OPTS + ['-c', a.conf, 'fix'], stdout=subprocess.PIPE, stderr=subprocess.PIPE, env=env, cwd=a.root)
+                t0 = time.time()
+                while p.poll() is None and time.time() - t0 < 30:
+                    if (open(prog).read().count('\n') if os.path.exists(prog) else 0) >= how[1]:
+                        break
+                    time.sleep(0.002)
+                if p.poll() is None:
+                    p.send_signal(how[2])
+                try:
+                    p.communicate(timeout=60)
+                except subprocess.TimeoutExpired:
+                    p.kill()
+                    chk.violation('fix_signal_hang', 'fix does not exit after signal %d' % how[2], rep)
+                    return
+                what = 'fix stopped by signal %d at its data write %d' % (how[2], how[1])
+            self.stats['graceful'] = self.stats.get('graceful', 0) + 1
+            mid = {k for k, v in a.snapshot_data().items() if v[0] == 'f'}
+            gone = {k for k in before if k not in mid and (k[0], k[1] + '.unrecoverable') not in mid}
+            if gone:
+                chk.violation('fix_graceful_lost', '%s: files present before it disappeared: %s' % (what, sorted(gone)), rep)
+            r2 = a.run('fix')
+            # the files rewritten in place (d2/x repaired, d3/z cut back) may keep the time of the stopped run: the property's exception
+            dd = data_equal(self.ref, a.snapshot_data(), ignore_mtime_of={('d2', 'x'), ('d3', 'z')})
+            if r2.rc != self.ref_rc or dd:
+                chk.violation('fix_graceful_resume', '%s then fix again (rc %d) differs from an uninterrupted fix: %s' % (what, r2.rc, dd[:3]), rep)
+            else:
+                self.stats['same_result'] += 1
+        finally:
+            drop(a)
 
     def kill_case(self, pt):
         k, mode = pt
@@ -849,10 +909,12 @@ def main(tier, replay=None):
     tot = {}
     conf_sum = []
     traces_ok = 0
-    for (name, nd, np_, cache, ncontent, autosave_at) in confs:
+    # the same with the pre-hash phase (-h) and with the GUI progress lines (-G)
+    confs = [cf + ((),) for cf in confs] + [('adds', 2, 1, 3, 1, 0, ('-h',)), ('mixed', 3, 2, 1, 1, 0, ('-h', '-G'))][:1 if quick else 2]
+    for (name, nd, np_, cache, ncontent, autosave_at, extra) in confs:
         scn = Scn(binary, shim, name, nd, np_, ncontent=ncontent)
         try:
-            K = SyncKill(chk, scn, cache, autosave_at, model, full_c01=not quick)
+            K = SyncKill(chk, scn, cache, autosave_at, model, full_c01=not quick, extra=extra)
         except Exception as e:
             chk.violation('setup', 'configuration %s cannot be prepared: %s' % ((name, nd, np_, cache), e), {'conf': [name, nd, np_, cache]}, no_input=True)
             continue
@@ -889,19 +951,26 @@ def main(tier, replay=None):
         nw = 12 if name == 'mixed' else (6 if name == 'adds' else (10 if name == 'wipe' else 8))
         for k in range(1, nw + 1):
             for sig in ((signal.SIGINT, signal.SIGTERM) if (k % 2 or not quick) else (signal.SIGINT,)):
-                scases.append((scn, cache, k, sig))
-    pmap(lambda c: signal_case(chk, c[0], slow, c[1], c[2], c[3], model, sstats), scases, workers=8)
+                scases.append((scn, cache, k, sig, ()))
+                if name == 'adds' and cache == 1 and k in (2, 4):
+                    scases.append((scn, cache, k, sig, ('-G',)))        # the GUI variant of the progress / interruption report
+                    scases.append((scn, cache, k, sig, ('-h',)))        # with the pre-hash phase
+    pmap(lambda c: signal_case(chk, c[0], slow, c[1], c[2], c[3], model, sstats, c[4]), scases, workers=8)
     # ---- (c) fix killed at every call, then re-run
     fstats = {}
     fconf = []
     for np_ in ([2] if quick else [1, 2, 3]):
         try:
-            F = FixKill(chk, binary, shim, np_)
+            F = FixKill(chk, binary, shim, np_, slow)
         except Exception as e:
             chk.violation('setup', 'fix scenario cannot be prepared: %s' % e, {'np': np_}, no_input=True)
             continue
         pts = F.points()
         pmap(F.kill_case, pts)
+        # graceful stops: partial runs over every prefix / a few windows, signals at the data writes
+        gr = [('B', 0, n) for n in range(1, 8)] + [('B', s_, n) for s_ in (1, 3) for n in (1, 2)]
+        gr += [('sig', k, sg) for k in range(1, 6 if quick else 12) for sg in (signal.SIGINT, signal.SIGTERM)]
+        pmap(F.graceful_case, gr, workers=8)
         for k, v in F.stats.items():
             fstats[k] = fstats.get(k, 0) + v
         fconf.append({'np': np_, 'calls': len(F.calls), 'kill_points': len(pts)})
@@ -927,7 +996,9 @@ def main(tier, replay=None):
     if ob['failed'] and not chk.violations:
         chk.violation('obligation', 'proof obligation of C07 no longer checks: %s' % ob['failed'][0],
                       {'theorem_file': 'coq/Props/Properties_C07.v', 'failed': ob['failed'], 'log_tail': ob['log'][-1500:]}, no_input=True)
-    chk.assumptions += ['process death only (SIGKILL at a system-call boundary or in the middle of a write): no power loss, no reordering below fsync',
+    chk.assumptions += ['exercised by the oracle only (outside the Coq model): fix stopped gracefully (partial runs -B / -S -B, signals) on missing files, on a file grown since the sync (cut back by fix) and over .unrecoverable leftovers; sync -h and -G variants of the kill and signal families; whole-disk removals under --force-empty',
+                        'never reached, by choice: close/rename/mkdir/link error branches of fix, rehash in progress, the size-based autosave (needs GBs)',
+                        'process death only (SIGKILL at a system-call boundary or in the middle of a write): no power loss, no reordering below fsync',
                         'Q-C07: a torn parity block with a single parity level may make a previously synced file unrecoverable; measured (torn_write_np1_unrecoverable), not raised',
                         'the C01-style recovery after the resumed sync is applied to one data disk per kill point in the quick tier (rotating), to every disk in the thorough tier']
     return chk.finish()
